@@ -271,7 +271,7 @@ func NewTCPEndpoint(e *Env, conn *SimConn, c TCPEndpointCfg) (*TCPEndpoint, erro
 			ep.Errs = append(ep.Errs, err.Error())
 			ep.mu.Unlock()
 		}),
-		options.WithMessagePool(pool.New(0, 0)),
+		options.WithMessagePool(pool.New(e.PoolCapacity, 2048)),
 	}
 	opts = append(opts, c.Opts...)
 	var nc net.Conn = conn
